@@ -84,9 +84,6 @@ cdef class cyDiscreteQuadraticModel:
     @cython.wraparound(False)
     def add_linear_equality_constraint(self, object terms,
                                        bias_type lagrange_multiplier, bias_type constant):
-        # adjust energy offset
-        self.cppbqm.add_offset(lagrange_multiplier * constant * constant)
-
         # resolve the terms from a python object into a C++ object
         cdef vector[LinearTerm] cppterms
 
@@ -106,6 +103,9 @@ cdef class cyDiscreteQuadraticModel:
             term.case = case_v + self.case_starts_[v]
             term.bias = bias
             cppterms.push_back(term)
+
+        # adjust energy offset (only now: a bad term must leave the model unchanged)
+        self.cppbqm.add_offset(lagrange_multiplier * constant * constant)
 
         # sort and sum duplicates in terms
         sort_terms(cppterms)
